@@ -62,6 +62,8 @@ def nodes(fmt, obj):
             out.append((["ti.stage2"], "stage2", obj.stage2))
         if obj.media.discnum or obj.media.totaldiscs:
             out.append((["ti.media"], "media", obj.media))
+        elif obj.media.discnum is None and obj.media.totaldiscs is None:
+            out.append((["ti.nomedia"], "media", obj.media))
         if obj.checksums.checksums:
             out.append((["ti.checksums"], "checksums", obj.checksums))
     elif fmt == "discinfo":
@@ -129,7 +131,9 @@ OBJ = {"none": None, "int": 5, "empty": "", "float": 1.5, "strnum": "7", "str": 
        "date_dashed": "2015-05-22", "nodate": "Fedora-22", "label_ga": "GA", "label_noversion": "RC", "label_onepart": "RC-1",
        "label_unknown": "Gamma-1.0", "label_threepart": "RC-1.0.0", "label_lower": "rc-1.0", "trailingdot": "1.", "doubledot": "1..2",
        "alnum": "1a", "dash": "a-b", "space": "a b", "md5_short": "abc123", "md5_upper": "A" * 32, "md5_31": "a" * 31,
-       "layered": "layered-product", "variantid": "Server", "nan": float("nan"), "bytes": b"x86_64"}
+       "layered": "layered-product", "variantid": "Server", "nan": float("nan"), "bytes": b"x86_64", "md5_nl": "a" * 32 + "\n",
+       "zerofloat": 0.0, "list_of_text": ["x", "y"], "list_of_float": [1.5]}
+FULLWIDTH = {ord(c): 0xFF10 + int(c) for c in "0123456789"}
 DOC = dict(OBJ)
 DOC.update({"emptyset": [], "int_date": 20150522})
 INI = {"trailingdot": "1.", "alnum": "1a", "str": "maybe", "empty": "", "zero": "0", "dash": "a-b", "unknown": "bogus-value",
@@ -140,6 +144,15 @@ def corrupt_object(fmt, obj, node_index, field, cls):
     kinds, label, node = nodes(fmt, obj)[node_index - 1]
     if cls == "upper":
         setattr(node, field, getattr(node, field).upper())
+    elif cls == "nl":
+        setattr(node, field, getattr(node, field) + "\n")
+    elif cls == "fullwidth":
+        setattr(node, field, getattr(node, field).translate(FULLWIDTH))
+    elif cls == "nl_aligned":
+        node.id, node.uid = node.id + "\n", node.uid + "\n"
+    elif field == "image_paths" and cls == "int":
+        plat = sorted(node.images)[0]
+        node.images[plat][sorted(node.images[plat])[0]] = 5
     elif cls == "misaligned":
         node.uid = node.uid + "x"
     elif cls == "dashvariant":
@@ -278,6 +291,16 @@ def corrupt_document(fmt, text, obj, case):
     for n in targets:
         if cls == "upper":
             n[field] = n[field].upper()
+        elif cls == "nl":
+            n[field] = n[field] + "\n"
+        elif cls == "fullwidth":
+            n[field] = n[field].translate(FULLWIDTH)
+        elif cls == "nl_aligned":
+            n["id"], n["uid"] = n["id"] + "\n", n["uid"] + "\n"
+            for par in pay["variants"].values():              # keep the parent's child list and the table key aligned, too
+                if label.rsplit("-", 1)[-1] in par.get("variants", []) and label.startswith(par["uid"] + "-"):
+                    par["variants"] = [c + "\n" if c == label.rsplit("-", 1)[-1] else c for c in par["variants"]]
+            pay["variants"][label + "\n"] = pay["variants"].pop(label)
         elif cls == "misaligned":
             n["uid"] = n["uid"] + "x"
         elif cls == "dashvariant":
@@ -471,7 +494,7 @@ def eval_doc(case):
     what = "%s document: %s %s %s" % (case["sample"], kind, arg, case.get("ver", ""))
     # "valid_elsewhere": the sample's own release version - valid for another field called version
     mang = {"nonnumeric": "abc", "onepart": "1", "threepart": "1.2.3", "empty": "", "null": None, "float": 1.2, "trailing_x": "1.x",
-            "negative": "-1.0", "valid_elsewhere": "22"}
+            "negative": "-1.0", "valid_elsewhere": "22", "trailing_nl": "1.2\n", "fullwidth": "\uff11.\uff12"}
     if fmt == "discinfo":
         lines = text.split("\n")
         bad = "\n".join(lines[:2]) if arg == "line3" else lines[0]
@@ -481,8 +504,8 @@ def eval_doc(case):
             ini.p.set("header", "type", arg)
             ini.p.set("header", "version", case["ver"])
         elif kind == "mangle":
-            if mang[arg] is None or isinstance(mang[arg], float):
-                return []
+            if mang[arg] is None or isinstance(mang[arg], float) or arg == "trailing_nl":
+                return []           # not expressible in the file syntax (values are stripped)
             ini.p.set("header", "version", mang[arg])
         else:
             if arg == "variantsection":
